@@ -1,6 +1,6 @@
 //go:build verif
 
-package x448
+package x448_test
 
 // C14 for dh/x448: KeyGen (Joye ladder) and Shared (Montgomery ladder) over a fixed alphabet of
 // secrets x peer values under each configuration.
@@ -11,32 +11,33 @@ import (
 	"strings"
 	"testing"
 
+	dh "github.com/cloudflare/circl/dh/x448"
 	"github.com/cloudflare/circl/internal/verifc14"
 )
 
 func TestVerifC14_x448(t *testing.T) {
 	c := verifc14.Start(t, "x448")
-	c.Backend("dh/x448.hasBmi2Adx", c14Backend(), verifc14.FpSel)
+	c.BackendOptional("dh/x448.hasBmi2Adx", dh.C14ReadBackend, verifc14.FpSel)
 	m1, b63 := ^uint64(0), uint64(1)<<63
 	wide := []uint64{1, 2, 5, 1<<32 - 1, 1 << 32, 1<<32 + 1, b63 - 1, b63, b63 + 1, m1 - 1<<32, m1 - 1<<32 + 1, m1 - 2, m1 - 1}
-	p := make([]byte, Size)
+	p := make([]byte, dh.Size)
 	for i := range p {
 		p[i] = 0xff
 	}
 	p[28] = 0xfe
 	// 4 * (group order of Curve448), little endian: the clamped secret that maps every point to the identity
 	order4L, _ := hex.DecodeString("cc1361ad4a0ae38d543d1637ca09b38540da58bb266d3b11a78f28f3fd" + strings.Repeat("ff", 27))
-	if len(order4L) != Size {
+	if len(order4L) != dh.Size {
 		t.Fatal("bad constant")
 	}
-	five := make([]byte, Size)
+	five := make([]byte, dh.Size)
 	five[0] = 5
-	named := map[string][]byte{"p": p, "5": five, "2^448-20": verifc14.AddSmall(make([]byte, Size), -20)}
-	for i, lo := range lowOrderPoints {
-		named[fmt.Sprintf("low%d", i)] = append([]byte{}, lo[:]...)
+	named := map[string][]byte{"p": p, "5": five, "2^448-20": verifc14.AddSmall(make([]byte, dh.Size), -20)}
+	for i, lo := range verifc14.LowOrder448() { // public constants, same values and order as the package's table
+		named[fmt.Sprintf("low%d", i)] = append([]byte{}, lo...)
 	}
 	all := verifc14.FieldAlphabet(7, wide, named, -2, 19, c.R.Pick(8, 32), "x448-public")
-	secrets := verifc14.DHSecrets(Size, c.R.Thorough(), c.R.Seed())
+	secrets := verifc14.DHSecrets(dh.Size, c.R.Thorough(), c.R.Seed())
 	secrets = append(secrets, verifc14.Named{Name: "4L", V: order4L}, verifc14.Named{Name: "4L+4", V: verifc14.AddSmall(order4L, 4)})
 	shared := append(append([]verifc14.Named{}, secrets[:10]...), secrets[len(secrets)-2:]...)
 	if c.R.Thorough() {
@@ -47,18 +48,18 @@ func TestVerifC14_x448(t *testing.T) {
 		"(all 448 in the thorough tier, byte-boundary bits in the quick tier). KeyGen on every secret; Shared on 12 secrets (quick) / about 60 secrets (thorough: every 8th single-bit secret added) x every peer value; a case = one peer value, digest over all secrets (bytes + ok flag)")
 	c.R.NotExhaustive("secrets and peer values are the declared alphabets")
 	verifc14.RunDH(c, &verifc14.DH{
-		Name: "X448", Size: Size,
+		Name: "X448", Size: dh.Size,
 		KeyGen: func(s []byte) []byte {
-			var pk, sk Key
+			var pk, sk dh.Key
 			copy(sk[:], s)
-			KeyGen(&pk, &sk)
+			dh.KeyGen(&pk, &sk)
 			return pk[:]
 		},
 		Shared: func(s, u []byte) ([]byte, bool) {
-			var ss, sk, pk Key
+			var ss, sk, pk dh.Key
 			copy(sk[:], s)
 			copy(pk[:], u)
-			ok := Shared(&ss, &sk, &pk)
+			ok := dh.Shared(&ss, &sk, &pk)
 			return ss[:], ok
 		},
 	}, secrets, shared, all)
